@@ -30,15 +30,66 @@ def c01_shapes(tier):
     return out
 
 def c03_shapes(tier):
-    # (strategy, breakers, buckets, depth, retry class)
+    # (strategy, breakers, buckets, depth, retry class, -, -, full chain)
     if tier == 'quick':
-        return [(1, 1, 1, 4, 0), (0, 1, 1, 3, 0), (2, 1, 2, 3, 1), (1, 2, 1, 3, 0)]
+        out = [(st, 1, 1, 5, 0, 0, 0, 0) for st in (0, 1, 2)]
+        out += [(1, 2, 1, 4, 0, 0, 0, 0), (0, 1, 2, 4, 1, 0, 0, 0), (2, 1, 1, 3, 0, 0, 0, 1)]
+        return out
     out = []
     for st in (0, 1, 2):
         for bk in (1, 2):
             for rc in (0, 1):
-                out.append((st, 1, bk, 4, rc))
-        out.append((st, 2, 1, 4, 0))
+                out.append((st, 1, bk, 6, rc, 0, 0, 0))
+        out.append((st, 2, 1, 5, 0, 0, 0, 0))
+        out.append((st, 2, 2, 5, 1, 0, 0, 0))
+        out.append((st, 1, 1, 4, 0, 0, 0, 1))
+    return out
+
+def c05h_shapes(tier):
+    # (param mode, values, override, ops, -,-,-, full chain)
+    if tier == 'quick':
+        return [(0, 2, 1, 4), (1, 2, 0, 3), (2, 2, 1, 3), (3, 1, 0, 3), (4, 1, 0, 2), (0, 1, 0, 3, 0, 0, 0, 1)]
+    out = []
+    for mode in (0, 1, 2):
+        for ov in (0, 1):
+            out.append((mode, 3, ov, 6))
+    out += [(3, 2, 1, 4), (4, 2, 0, 4), (0, 2, 1, 4, 0, 0, 0, 1)]
+    return out
+
+def c06_shapes(tier):
+    # (q, b, d, override, k, values, -, full chain)
+    if tier == 'quick':
+        return [(2, 1, 1, -1, 4, 2), (3, 0, 2, 1, 4, 2), (0, 2, 1, 2, 3, 2), (1, 2, 3, -1, 4, 1), (2, 0, 1, -1, 2, 1, 0, 1)]
+    out = []
+    for q in (0, 1, 2, 3):
+        for b in (0, 2):
+            for d in (1, 3):
+                out.append((q, b, d, -1, 6, 2))
+    out += [(2, 1, 2, 0, 5, 3), (2, 1, 1, 3, 5, 3), (1, 0, 1, 2, 5, 3), (3, 2, 2, -1, 6, 3), (2, 1, 1, -1, 3, 2, 0, 1)]
+    return out
+
+def c07f_shapes(tier):
+    # (rate, interval ms, max queue ms, k, -,-,-, full chain)
+    if tier == 'quick':
+        return [(2, 1000, 500, 4), (10, 100, 0, 4), (3, 1000, 2000, 4), (1, 10000, 50, 3), (0, 1000, 500, 2), (1000, 1000, 50, 3), (2, 1000, 500, 2, 0, 0, 0, 1)]
+    out = []
+    for r in (1, 2, 3, 10, 1000):
+        for iv in (100, 1000, 10000):
+            for mq in (0, 50, 2000):
+                out.append((r, iv, mq, 5))
+    out += [(0, 1000, 500, 3), (3, 1000, 500, 4, 0, 0, 0, 1)]
+    return out
+
+def c07h_shapes(tier):
+    # (q, d, max queue ms, k, values, -,-, full chain)
+    if tier == 'quick':
+        return [(2, 1, 500, 4, 2), (1, 1, 2000, 4, 1), (10, 2, 50, 4, 2), (0, 1, 500, 2, 1), (2, 1, 500, 2, 1, 0, 0, 1)]
+    out = []
+    for q in (1, 2, 3, 10):
+        for d in (1, 3):
+            for mq in (0, 50, 2000):
+                out.append((q, d, mq, 6, 2))
+    out += [(0, 1, 500, 3, 2), (2, 1, 500, 3, 2, 0, 0, 1)]
     return out
 
 def c04_shapes(tier):
@@ -95,6 +146,33 @@ PROPS = {
         'scenarios': [
             {'name': 'c05_isolation', 'shapes': {'quick': c05_shapes('quick'), 'thorough': c05_shapes('thorough')},
              'witnesses': ['admitted', 'rejected'], 'selftest': {'quick': 8, 'thorough': 40}},
+            {'name': 'c05_hotspot', 'shapes': {'quick': c05h_shapes('quick'), 'thorough': c05h_shapes('thorough')},
+             'witnesses': ['admitted', 'rejected'], 'selftest': {'quick': 8, 'thorough': 40}},
+        ],
+    },
+    'C06': {
+        'level': 'model_checking',
+        'bounds': 'one hotspot QPS/reject rule on positional parameter 0: q in 0..3 per d in 1..3 s, burst 0..2, optional override for value 0; 1-3 distinct values (within capacity); '
+                  'k<=4 (quick) / <=6 requests; batch in [1,3]; t0 in [T,T+999], gaps in [0, 2.5 d] s (so exactly d and d+1 ms are in range); q, b, d concrete per shape '
+                  '(the refill term pass_time*q/(1000 d) stays linear)',
+        'assumptions': ['driven through a chain of the real prepare and hotspot slots (statistic slots left out, they do not influence hotspot QPS control); one shape uses the complete global chain'],
+        'scenarios': [
+            {'name': 'c06_hotspot_qps', 'shapes': {'quick': c06_shapes('quick'), 'thorough': c06_shapes('thorough')},
+             'witnesses': ['admitted', 'rejected'], 'selftest': {'quick': 8, 'thorough': 40}},
+        ],
+    },
+    'C07': {
+        'level': 'model_checking',
+        'bounds': 'flow throttling: rate in {0,1,2,3,10,1000} per {100,1000,10000} ms, max queueing in {0,50,500,2000} ms, k<=4 (quick)/5 requests, arrival instants symbolic in ns '
+                  '(gaps in [0, 3 I/r + Q]), batch in [1,3]; pace compared with 1 ns slack per request (the implementation computes it in f64). '
+                  'hotspot throttling: q in {0,1,2,3,10} per 1-3 s, max queueing {0,50,500,2000} ms, 1-2 values, batch in [1,2], ms clock, 1 ms rounding slack',
+        'assumptions': ['virtual clock: sleep_for_ns/sleep_for_ms advance it, so "the caller was held" = the clock moved by at least the promised wait',
+                        'chains of the real prepare slot plus the real flow (hotspot) slot; one shape per family uses the complete global chain'],
+        'scenarios': [
+            {'name': 'c07_flow_throttling', 'shapes': {'quick': c07f_shapes('quick'), 'thorough': c07f_shapes('thorough')},
+             'witnesses': ['admitted-now', 'queued', 'rejected', 'always-rejected'], 'selftest': {'quick': 8, 'thorough': 40}},
+            {'name': 'c07_hotspot_throttling', 'shapes': {'quick': c07h_shapes('quick'), 'thorough': c07h_shapes('thorough')},
+             'witnesses': ['admitted-now', 'queued', 'rejected'], 'selftest': {'quick': 8, 'thorough': 40}},
         ],
     },
     'C13': {
